@@ -186,6 +186,11 @@ def setAtf (m : ChainMap) (serial : Nat) (t : List Int) : ChainMap :=
 
 def fltList (l : List Flt) : List Flt := l
 
+/-- the wrap convention: a number 0 right after the largest number the column can hold means the count went
+on; the offset grows by the column's modulus -/
+def wrapAddN (top last add serial : Nat) : Nat := if serial == 0 && last == top then add + (top + 1) else add
+def wrapAddI (top : Int) (last add serial : Int) : Int := if serial == 0 && last == top then add + (top + 1) else add
+
 /-- what one lexed item does to the parser state; the diagnostics it raises all belong to the current line,
 which `stepLine` attaches -/
 def stepItem (o : ReadOpts) (s : PState) (ctx : Nat × List Char) (item : LexItem) : PState × List LDiag :=
@@ -198,8 +203,8 @@ def stepItem (o : ReadOpts) (s : PState) (ctx : Nat × List Char) (item : LexIte
       else (s, [])
     | .atom het serial name alt resName chain resSeq icode x y z occ b element charge =>
       if o.discardHydrogens && element == ['H'] then (s, []) else
-      let atomAdd := if serial == 0 && s.lastAtom == 99999 then s.atomAdd + 100000 else s.atomAdd
-      let resAdd := if resSeq == 0 && s.lastRes == 9999 then s.resAdd + 10000 else s.resAdd
+      let atomAdd := wrapAddN 99999 s.lastAtom s.atomAdd serial
+      let resAdd := wrapAddI 9999 s.lastRes s.resAdd resSeq
       let s := { s with atomAdd := atomAdd, resAdd := resAdd }
       let cid : String := if (trim chain).isEmpty then letterOf s.chainLetter else String.ofList chain
       let resNameS := String.ofList resName
